@@ -449,6 +449,18 @@ decls! {
     gen = |r| gen_long_text(r);
     corpus = vec![s("ok"), s("no!"), "語".repeat(100), format!("{}!", "語".repeat(60)), format!("!{}", "é".repeat(70))];
 
+    #[nutype(sanitize(trim), default = "n/a", derive(Debug, Clone, Serialize, Deserialize, Default))]
+    struct NoteD(String);
+    family = "string"; validated = false; core = false;
+    gen = |r| if r.chance(1, 3) { s(*r.pick(&["", " ", "\t\n", "n/a"])) } else { gen_string(r, 4) };
+    corpus = vec![s(""), s("  "), s("x"), s("n/a")];
+
+    #[nutype(sanitize(trim), validate(len_char_max = 5), default = "dflt", derive(Debug, Clone, Serialize, Deserialize, Default))]
+    struct TagD(String);
+    family = "string"; validated = true; core = false;
+    gen = |r| if r.chance(1, 3) { s(*r.pick(&["", " ", "\u{3000}", "dflt"])) } else { gen_string(r, 5) };
+    corpus = vec![s(""), s("  "), s("x"), s("dflt"), s("toolong")];
+
     // ------------------------------------------------------------------ other inner types
     #[nutype(validate(predicate = |p| p.x <= p.y), derive(Debug, Clone, Serialize, Deserialize))]
     struct OrderedPoint(Point);
@@ -479,6 +491,12 @@ decls! {
     family = "other"; validated = true; core = false;
     gen = |r| Point { x: gen_int(r, -2, 2, -9, 9) as i32, y: gen_int(r, -2, 2, -9, 9) as i32 };
     corpus = vec![Point { x: 0, y: 0 }, Point { x: 1, y: 0 }, Point { x: -9, y: 9 }];
+
+    #[nutype(default = vec![1, 2, 3], derive(Debug, Clone, Serialize, Deserialize, Default, IntoIterator))]
+    struct LevelsD(Vec<u8>);
+    family = "other"; validated = false; core = false;
+    gen = |r| (0..r.below(3)).map(|_| r.below(256) as u8).collect();
+    corpus = vec![vec![], vec![0], vec![1, 2, 3]];
 
     #[nutype(validate(predicate = |c| c.is_alphabetic()), derive(Debug, Clone, Serialize, Deserialize))]
     struct Letter(char);
